@@ -325,14 +325,16 @@ def _body_nnd(n, nref, letters):
         from vlib import sym, symops as so
         from crosshair.simplestructs import ShellMutableSet
         seq = sym.sym_str("seq", n, among=letters)
-        refs = [sym.sym_str(f"r{i}", n, among=letters) for i in range(nref)]
+        rlen = n if nref >= 0 else n + 1            # nref < 0: |nref| references of ANOTHER length (never Hamming neighbours)
+        refs = [sym.sym_str(f"r{i}", rlen, among=letters) for i in range(abs(nref))]
         maxdist = sym.sym_int("maxdist", 1, 4)
         rs = ShellMutableSet()
         for r in refs:
             rs.add(r)
         got = distance.nndist_hamming(seq, rs, maxdist=maxdist)
-        nearest = so.smin(*[hc.ham_term(seq, r) for r in refs])
-        return so.eq(got, so.smin(nearest, maxdist)), (lambda: f"nndist_hamming -> {_realize(got)}")
+        same_len = [hc.ham_term(seq, r) for r in refs if len(r) == len(seq)]
+        want = so.smin(*(same_len + [maxdist])) if same_len else maxdist
+        return so.eq(got, want), (lambda: f"nndist_hamming -> {_realize(got)}")
     return body
 
 
@@ -340,10 +342,10 @@ def _replay_nnd(n, nref, letters):
     def replay(inputs):
         from pyrepseq import distance
         seq = inputs["seq"]
-        refs = {inputs[f"r{i}"] for i in range(nref)}
+        refs = {inputs[f"r{i}"] for i in range(abs(nref))}
         md = int(inputs["maxdist"])
         got = distance.nndist_hamming(seq, refs, maxdist=md)
-        want = min(min(hc.ham(seq, r) for r in refs), md)
+        want = min([hc.ham(seq, r) for r in refs if len(r) == len(seq)] + [md])
         return got == want, f"nndist_hamming({seq!r}, {refs!r}, maxdist={md}) = {got!r}, expected {want}"
     return replay
 
@@ -387,7 +389,8 @@ def conditions(tier):
             out.append(Condition(f"C12/{fn}/{kind}/len={','.join(map(str, shape))}", _body_util(fn, kind, shape, "AC"),
                                  _replay_util(fn, kind, shape, "AC"), budget=400 if not T else 3000, models=("np",),
                                  bounds=f"{fn} on strings of lengths {shape} over AC, {kind} neighbourhood"))
-    for n, nref, letters in [(1, 1, "AC"), (2, 1, "AC"), (2, 2, "AC"), (3, 1, "AC"), (2, 1, "ACD")] + ([(3, 2, "AC"), (3, 1, "ACD"), (4, 1, "AC")] if T else []):
+    for n, nref, letters in [(1, 1, "AC"), (2, 1, "AC"), (2, 2, "AC"), (3, 1, "AC"), (2, 1, "ACD"), (1, 0, "AC"), (2, 0, "AC"), (3, 0, "AC"),
+                             (2, -1, "AC"), (0, 0, "AC")] + ([(3, 2, "AC"), (3, 1, "ACD"), (4, 1, "AC")] if T else []):
         out.append(Condition(f"C12/nndist_hamming/|seq|={n}/refs={nref}/{letters}", _body_nnd(n, nref, letters), _replay_nnd(n, nref, letters),
                              budget=400 if not T else 3000, setup=_setup_alpha(letters),
                              bounds=f"seq and {nref} references of length {n} over {letters}, maxdist symbolic 1..4"))
